@@ -19,6 +19,7 @@ def main():
     spec = json.load(sys.stdin)
     import diffpy.structure.spacegroups as S
     funcs = set(spec["funcs"])
+    nested = bool(spec.get("nested"))
     fname = S.__file__
     number_index = {sg.number: i for i, sg in enumerate(S.SpaceGroupList)}
     segments = []
@@ -37,8 +38,12 @@ def main():
 
         def tracer(self, frame, event, arg):
             co = frame.f_code
-            if event == "call" and co.co_name in funcs and co.co_filename == fname:
-                return self.local
+            if event == "call" and co.co_filename == fname:
+                if co.co_name in funcs:
+                    return self.local
+                # finder mode: also generator expressions / comprehensions / lambdas written inside the module
+                if nested and co.co_name.startswith("<"):
+                    return self.local
             return None
 
         def local(self, frame, event, arg):
